@@ -1,4 +1,8 @@
-From V Require Import Val LtsWire LtsOracle.
-Definition x_C01_lts (v : val) : val := lts_run v.
-(* v = (case observed): the oracle of Properties/C01.v, theorem C01_model_passes *)
-Definition x_C01_ok (v : val) : val := vbool (ok_C01 (dec_lcase (nthv 0 v)) (dec_obs (nthv 1 v))).
+From V Require Import Val LtsWire LtsOracle C04RawPkt.
+(* packets of a case may be given by kind, (id kind), or by channel + RTP payload bytes,
+   (id _ channel xPAYLOAD): the kind of the latter is the classification of Model/C02Classify.v
+   (Model/C04RawPkt.v, [norm_case]) *)
+Definition x_C01_lts (v : val) : val := lts_run (norm_case v).
+(* v = (case observed): the oracle of Properties/C01.v, theorem C01_model_passes_on_the_wire_raw *)
+Definition x_C01_ok (v : val) : val :=
+  vbool (ok_C01 (dec_lcase (norm_case (nthv 0 v))) (dec_obs (nthv 1 v))).
